@@ -8,6 +8,8 @@ import (
 	"os/exec"
 	"path/filepath"
 	"strings"
+	"time"
+	"verif/atlasfake"
 
 	"verif/ev"
 	"verif/jt"
@@ -413,6 +415,8 @@ func C11() int {
 	c11API(s, c)
 	// runs that fail part-way through processing, after ciphertext has been written
 	c11FailingRuns(s, c, validKey)
+	// Atlas jobs accept --encrypt as well: the per-host outputs are <outputFile>.<i>
+	c11AtlasRuns(s, c, validKey)
 	raceVerdict(s, c)
 	if c.Counter("runs") < len(jobs) {
 		c.Inconclusive("not every state × sequence was run")
@@ -589,6 +593,78 @@ func c11FailingRuns(s *sut.SUT, c *ev.Check, validKey string) {
 		raw, has, dr := decryptCLI(s, dir, kp, leaf.S)
 		if dr.Exit != 0 || !has || raw != secret(0) {
 			viol("output-not-decryptable-with-key-file", fmt.Sprintf("the first emitted value does not decrypt to the planted secret with the file at the key path (decrypt exit %d, printed %q)", dr.Exit, trunc(raw, 40)))
+		}
+	})
+}
+
+// c11AtlasRuns: --encrypt in Atlas mode (2 hosts behind the fake endpoint). The key file follows the
+// same life cycle as with a file job; in particular an existing valid key file is left byte-for-byte
+// untouched also when its path is one of the per-host output names <outputFile>.<i>.
+func c11AtlasRuns(s *sut.SUT, c *ev.Check, validKey string) {
+	type job struct{ name, state string }
+	jobs := []job{{"key elsewhere", "absent"}, {"key elsewhere", "valid"}, {"key path is <outputFile>.0", "valid"}, {"key path is <outputFile>.1", "valid"}, {"key path is <outputFile>.1", "absent"}, {"key path is <outputFile>.0 through a symlink", "valid"}}
+	parallelDo(len(jobs), func(ji int) {
+		jb := jobs[ji]
+		cfg, _, _, names := c17Build(c.Seed+11, ji*3, c17Case{2, -1, "none"})
+		srv, err := atlasfake.New(cfg)
+		if err != nil {
+			c.Inconclusive("fake endpoint: " + err.Error())
+			return
+		}
+		defer srv.Close()
+		dir := s.TempDir("c11a")
+		defer os.RemoveAll(dir)
+		os.Mkdir(filepath.Join(dir, "tmp"), 0o755)
+		outp := filepath.Join(dir, "out.log")
+		kp, real := filepath.Join(dir, "enc.key"), ""
+		switch {
+		case strings.HasSuffix(jb.name, ".0"):
+			kp = outp + ".0"
+		case strings.HasSuffix(jb.name, ".1"):
+			kp = outp + ".1"
+		case strings.Contains(jb.name, "symlink"):
+			real = filepath.Join(dir, "real.key")
+			kp = outp + ".0"
+		}
+		if jb.state == "valid" {
+			if real != "" {
+				os.WriteFile(real, []byte(validKey), 0o600)
+				os.Symlink(real, kp)
+			} else {
+				os.WriteFile(kp, []byte(validKey), 0o600)
+			}
+		}
+		before := c11Take(kp)
+		var realBefore c11Snap
+		if real != "" {
+			realBefore = c11Take(real)
+		}
+		env := append(atlasEnv(srv, dir), "ATLAS_PUBLIC_KEY="+atlasPub, "ATLAS_PRIVATE_KEY="+atlasPriv, "TMPDIR="+filepath.Join(dir, "tmp"))
+		r := s.CLI(sut.Run{Args: []string{"redact", "--atlasProjectId", cfg.Project, "--atlasClusterName", cfg.Cluster, "-o", outp, "--encrypt", "-q", kp}, Dir: dir, Env: env, Timeout: 3 * time.Minute})
+		if r.TimedOut {
+			c.Inconclusive("watchdog on an Atlas CLI run")
+			return
+		}
+		after := c11Take(kp)
+		label := fmt.Sprintf("Atlas job with --encrypt, %d hosts, %s, key %s", len(names), jb.name, jb.state)
+		c.Count("atlas_runs", 1)
+		c.Eval("atlas|" + label)
+		viol := func(kind, what string) {
+			c.Violation(kind+"|atlas|"+jb.name, fmt.Sprintf("%s: %s (exit %d, stderr: %s)", label, what, r.Exit, short(bytes.TrimSpace(r.Stderr), 200)), map[string]any{"kind": "atlas-encrypt", "job": jb.name, "state": jb.state})
+		}
+		if jb.state == "valid" {
+			if !after.same(before) || (real != "" && !c11Take(real).same(realBefore)) {
+				viol("key-file-touched", fmt.Sprintf("the existing valid key file changed (before: %s %d bytes, after: %s %d bytes)", before.kind, len(before.bytes), after.kind, len(after.bytes)))
+			}
+			return
+		}
+		// key absent: a run that succeeds has stored a usable key; a run that fails has not left ciphertext without one
+		if r.Exit == 0 {
+			if k, okk := c11KeyOf(after.bytes); after.kind != "file" || !okk || len(k) != 64 {
+				viol("no-valid-key-stored", fmt.Sprintf("the run succeeded but the key path holds %s of %d bytes", after.kind, len(after.bytes)))
+			} else if after.mode&0o077 != 0 {
+				viol("key-file-permissions", fmt.Sprintf("generated key file has mode %04o", after.mode))
+			}
 		}
 	})
 }
